@@ -45,6 +45,12 @@ func cmdFuncs(args []string) {
 		fmt.Fprintln(os.Stderr, err)
 		os.Exit(2)
 	}
+	if len(args) > 0 && args[0] == "-addrtaken" {
+		for f := range e.addrTaken {
+			fmt.Println(f.String(), f.Signature)
+		}
+		return
+	}
 	for _, f := range e.allFuncs {
 		key := e.funcKey(f)
 		if len(args) > 0 && !strings.Contains(key, args[0]) {
